@@ -307,14 +307,18 @@ def run(ctx: Ctx) -> int:
     from .shared_rules import origin_table
     from .srcmodel import dotted as _dotted
 
-    chain = next((n for n in ad2.body if isinstance(n, ast.If) and any(isinstance(c, ast.Compare) and ast.unparse(c.left) == "typehint" and isinstance(c.ops[0], ast.Eq) and _dotted(c.comparators[0]) == "Any" for c in ast.walk(n.test))), None)
+    chain = next((n for n in ad2.body if isinstance(n, ast.If) and any(isinstance(c, ast.Compare) and isinstance(c.left, ast.Name) and c.left.id == ad2.args.args[1].arg and isinstance(c.ops[0], ast.Eq) and _dotted(c.comparators[0]) == "Any" for c in ast.walk(n.test))), None)
     ctx.need(chain is not None, "adapt_typehints: the if/elif chain starting at `typehint == Any`")
+    # the dispatch variables: the `typehint` parameter and the local(s) holding its origin
+    th = ad2.args.args[1].arg
+    disp = {th} | {s.targets[0].id for s in walk_local(ad2) if isinstance(s, ast.Assign) and isinstance(s.targets[0], ast.Name) and any(isinstance(c, ast.Call) and call_leaf(c) == "get_typehint_origin" and c.args and isinstance(c.args[0], ast.Name) and c.args[0].id == th for c in ast.walk(s.value))}
+    ctx.need(len(disp) >= 2, "adapt_typehints: local holding get_typehint_origin(typehint)")
     handled: Set[str] = set()
     n_arms = 0
     node_ = chain
     while node_ is not None:
         n_arms += 1
-        for c in [x for x in ast.walk(node_.test) if isinstance(x, ast.Compare) and len(x.ops) == 1 and ast.unparse(x.left) in ("typehint", "typehint_origin")]:
+        for c in [x for x in ast.walk(node_.test) if isinstance(x, ast.Compare) and len(x.ops) == 1 and isinstance(x.left, ast.Name) and x.left.id in disp]:
             comp = c.comparators[0]
             if isinstance(c.ops[0], (ast.Eq, ast.Is)):
                 handled.add(_dotted(comp) or "?")
